@@ -13,7 +13,7 @@ CHECKS = {
         ref="6/C01"),
     "C02": dict(
         technique="Coq proof (first-match, TLS strictness, totality and specific-before-catch-all for the shipped list regenerated from conf and class flags) + correspondence vs ProtocolMultiplexer.getProtocol + independent shape oracle + exhaustive live-socket sniff",
-        text="Theorems over the model of every protocol's canhandlerequest and of getProtocol, for all request lines, header blocks, TLS flags and protocol lists: the answer is the first acceptor of the list; an acceptor's secure flag equals the connection's TLS-ness; the shipped list (regenerated from conf/pygopherd.conf, flags from the class definitions) claims every line and never by a catch-all when a specific protocol matches. The model is compared with the real getProtocol on thousands of near-miss lines x lists x header blocks; the 0x16 sniff is exercised for all 256 first bytes on a live TLS-enabled server.",
+        text="Theorems over the model of every protocol's canhandlerequest and of getProtocol, for all request lines, header blocks, TLS flags and protocol lists: the answer is the first acceptor of the list; an acceptor's secure flag equals the connection's TLS-ness; the shipped list (regenerated from conf/pygopherd.conf, flags from the class definitions) claims every line and never by a catch-all when a specific protocol matches; any list is total iff it has a catch-all of each TLS-ness; the header block matters only to the WAP class, only for HTTP-shaped lines, only on plaintext connections; classes of the other TLS-ness, decliners and duplicates are invisible; each class's test is equivalent to a declarative description of its request line (HTTP, Gemini, Spartan, Gopher+). The model is compared with the real getProtocol on thousands of near-miss lines x lists x header blocks; the 0x16 sniff is exercised for all 256 first bytes on a live TLS-enabled server.",
         note="Trusts: Coq kernel; translator (protocol list literal, boolean `secure` attributes); str.lower modelled on ASCII; the socket sniff clause is runtime behaviour decided by the exhaustive live run (partial for that clause).",
         ref="6/C02"),
 }
